@@ -289,3 +289,17 @@ def try_literal(node, env=None, default=None):
         return literal(node, env)
     except (ValueError, TypeError, AttributeError, KeyError):
         return default
+
+
+def ifexp_of(stmts, name):
+    """The two-way definition of ``name`` in a statement list as an ast.IfExp, whichever way it is written:
+    ``name = A if c else B`` or ``if c: name = A else: name = B`` (the canonical form turns the former into the latter)."""
+    for st in stmts:
+        if isinstance(st, ast.Assign) and len(st.targets) == 1 and isinstance(st.targets[0], ast.Name) and st.targets[0].id == name and isinstance(st.value, ast.IfExp):
+            return st.value
+        if isinstance(st, ast.If) and len(st.body) == 1 and len(st.orelse) == 1 and all(
+                isinstance(x, ast.Assign) and len(x.targets) == 1 and isinstance(x.targets[0], ast.Name) and x.targets[0].id == name for x in (st.body[0], st.orelse[0])):
+            e = ast.IfExp(st.test, st.body[0].value, st.orelse[0].value)
+            ast.copy_location(e, st)
+            return e
+    return None
